@@ -373,6 +373,8 @@ def run(ctx, chk, tier="quick"):
     b = cands[0]
     s = b.site
     sel = s.stmt
+    from ..report import row_integrity
+    row_integrity(chk, "C17.O3", g, b, "simulate_rise|row-integrity")
     reads = {src.table for src in sel.sources}
     chk.ob("C17.O3", reads == {"average_rising_depth"}, where_of(g, s.call), "reads %s" % sorted(reads),
            "the measured master rise curve (view average_rising_depth)", key="simulate_rise|source")
